@@ -214,6 +214,7 @@ def run(ctx):
             return ('exc', f'{type(e).__name__}: {str(e)[:80]}', store)
 
     # ---- the Lean model of get_param / _as_int / _as_bool / _as_list (Gt.*, driver ops of qsdriver)
+    MODEL_P = [1.0]                                   # share of the getter calls also put to the model (0.5 on the exhaustive strings)
     OLD = [('old0',), ('old1',), ('old2',)]          # values already in the store (compared by identity)
 
     def pre_store(key):
@@ -245,6 +246,8 @@ def run(ctx):
         """One line for the model, with the reply the real getter's behaviour corresponds to."""
         tr = kw.get('transform')
         if kind not in ('param', 'int', 'bool', 'list') or (tr is not None and tr is not int):
+            return
+        if MODEL_P[0] < 1.0 and rnd.random() >= MODEL_P[0]:
             return
         req_ = 1 if kw.get('required') else 0
         head = f'{qh} {1 if kb else 0} {1 if csv else 0} {hx(key.encode("utf-8"))} {req_}'
@@ -358,7 +361,7 @@ def run(ctx):
                         exp_store = dict(pre)
                         if want[0] == 'ret' and want[2]:
                             exp_store[key] = want[1]
-                    model_getter(qh, kb_, csv_, key, kind, kw, pre, got, dict(case, name=key, kind=kind))
+                    model_getter(qh, kb_, csv_, key, kind, kw, pre, got, (case['query_string'], kb_, csv_, case['entry'], key, kind))
                     ncalls += 1
                     ctx.count('getter_' + kind + '_' + (want[1] if want[0] == 'exc' else 'returned' if want[2] else 'default'))
                     call = f'{METH[kind]}({key!r}{", " if kw else ""}{show_kw(kw)}{", store=" + repr(pre) if use_store else ""})'
@@ -386,6 +389,7 @@ def run(ctx):
 
     def one_qs(qs, kind, rich, combos=((False, False), (False, True), (True, False), (True, True)), getters_on=('wsgi', 'asgi')):
         h = hx(qs.encode('utf-8'))
+        MODEL_P[0] = 0.5 if kind == 'exhaustive' else 1.0
         for kb, csv in combos:
             want = ref_parse(qs, kb, csv)
             line = f'{1 if kb else 0} {1 if csv else 0} {h}'
@@ -532,7 +536,7 @@ def run(ctx):
             # the Lean toQueryStr renders the same bytes, and the Lean parser reads them back like the real one
             sessg.case({'kind': 'to_query_str', 'mapping': m, 'comma_delimited_lists': cdl})
             sessg.op(f'toqs {1 if cdl else 0} 0 {show_mapping(m)}', hx(qs.encode('utf-8')))
-            sessg.op(f'{1 if keep_blank else 0} {1 if csv else 0} {hx(qs.encode("utf-8"))}', render(back) if bad is None or back is not None else '?')
+            sessg.op(f'{1 if keep_blank else 0} {1 if csv else 0} {hx(qs.encode("utf-8"))}', render(back))
 
     # to_query_str alone: also empty and one-element lists, empty mapping, both prefix settings
     for _ in range(ctx.n(1500, 20000)):
